@@ -37,6 +37,11 @@ def plan(tier, seed):
     nprog = 8 if q else 32
     for i in range(nprog):
         specs.append(dict(kind='programs', seed=seed, shard=i, n=120 if q else 4000, steps=50))
+    # system-register sweep: every (coproc 14/15, opc1, CRn, CRm, opc2) written then read back on ONE long-lived
+    # instance per shard (state is never restored in between)
+    for cp in (14, 15):
+        for opc1 in range(8):
+            specs.append(dict(kind='sysregs', seed=seed, shard=len(specs), cp=cp, opc1=opc1, rounds=1 if q else 6))
     return specs
 
 
@@ -70,6 +75,10 @@ class Mon:
             itpos = 'out' if kind == 'arm' else rng.choice(scen.IT_POSITIONS)
         desc = scen.prepare(ctx, rng, kind, word, mode=mode, itpos=itpos, ns=ns, e=(rng.random() < 0.15))
         cpu = ctx.cpu
+        if ctx.cfg['memory_system_architecture'] == 'VMSA' and rng.random() < 0.35:
+            hostile_mmu(cpu, ctx.cfg, rng, ns)
+            desc['hostile_mmu'] = True
+            self.bump('steps_with_hostile_mmu_setup')
         pre_mode = cpu.registers.cpsr.m
         k, sig = scen.step(cpu)
         self.res['evaluations'] += 1
@@ -101,6 +110,38 @@ class Mon:
 
 
 VECTORS = set()
+
+
+def hostile_mmu(cpu, cfg, rng, ns):
+    """MMU on with translation registers pointing at whatever the RAM holds (pattern bytes, code, data): walks of
+    both descriptor formats, stage 2 and TEX remap get exercised with arbitrary descriptors"""
+    r = cpu.registers
+    r.sctlr.m = 1
+    r.sctlr.afe = rng.randrange(2)
+    r.sctlr.tre = rng.randrange(2)
+    r.sctlr.ee = 1 if rng.random() < 0.2 else 0
+    eae = 1 if (cfg['have_lpae'] and rng.random() < 0.6) else 0
+    r.ttbcr.value = (eae << 31) | (rng.getrandbits(31) if rng.random() < 0.5 else rng.choice([0, 1, 2, 7, 0x10, 0x20]))
+    for name in ('ttbr0', 'ttbr0_64', 'ttbr1', 'ttbr1_64'):
+        setattr(r, name, rng.choice([0x0, 0x1000, 0x4000, 0x10000, 0x7000, rng.getrandbits(32)]))
+    r.dacr.value = rng.getrandbits(32)
+    r.prrr.value = rng.getrandbits(32)
+    r.nmrr.value = rng.getrandbits(32)
+    r.mair0 = rng.getrandbits(32)
+    r.mair1 = rng.getrandbits(32)
+    if cfg['have_virt_ext']:
+        r.hcr.vm = 1 if (ns and rng.random() < 0.5) else 0
+        r.hcr.dc = rng.randrange(2) if rng.random() < 0.2 else 0
+        # VTCR: only architecturally consistent SL0/T0SZ pairs (others make the stage-2 base UNPREDICTABLE)
+        sl0 = rng.randrange(2)
+        t0 = rng.randrange(-2, 8) if sl0 == 0 else rng.randrange(-8, 2)
+        r.vtcr.value = (rng.getrandbits(32) & 0x3F00) | (sl0 << 6) | ((t0 & 0xF) | ((1 << 4) if t0 < 0 else 0)) | (1 << 31)
+        r.vttbr = rng.choice([0x0, 0x4000, 0x10000, rng.getrandbits(40)])
+        r.htcr.value = rng.getrandbits(32) if rng.random() < 0.5 else 0
+        r.httbr = rng.choice([0x0, 0x4000, rng.getrandbits(40)])
+        r.hsctlr.m = rng.randrange(2)
+        r.hmair0 = rng.getrandbits(32)
+        r.hmair1 = rng.getrandbits(32)
 
 
 def run_shard(spec):
@@ -152,8 +193,113 @@ def run_shard(spec):
             mon.one(k, w, 'r%d' % (w >> (28 if k != 't16' else 12)))
     elif kind == 'programs':
         programs(mon, spec)
+    elif kind == 'sysregs':
+        sysregs(mon, spec)
     mon.res['violations'] = list(mon.viol.values())
     return mon.res
+
+
+def type_map(cpu):
+    """type of every attribute of the register file (and of every element of its lists): a step must never
+    replace a register object by something else"""
+    out = {}
+    for k, v in vars(cpu.registers).items():
+        if isinstance(v, (list, tuple)):
+            out[k] = tuple(type(x).__name__ for x in v)
+        elif isinstance(v, dict):
+            out[k] = tuple(sorted((str(a), type(b).__name__) for a, b in v.items()))
+        else:
+            out[k] = type(v).__name__
+    return out
+
+
+SYS_CTXS = [('v7-vmsa-virt', 'off'), ('v6-pmsa-sec', 'off'), ('v7-pmsa-r', 'off'), ('v7-vmsa-sec', 'off'), ('v6-vmsa', 'off')]
+
+
+def sysregs(mon, spec):
+    """MCR then MRC (and MCRR / MRRC) for every register address of one (coproc, opc1) slice, in ARM and Thumb state,
+    from a privileged mode, on one instance whose state is carried from step to step."""
+    from vf import scen, machine as M
+    rng = mon.rng
+    cp, opc1 = spec['cp'], spec['opc1']
+    for rnd in range(spec['rounds']):
+        ctxkey = SYS_CTXS[(spec['shard'] + rnd) % len(SYS_CTXS)]
+        ctx = mon.ctx(ctxkey)
+        ns = 0
+        mode = rng.choice([m for m in ctx.legal_modes(ns) if m not in ('usr', 'hyp')])
+        thumb = rnd % 2 == 1
+        desc = scen.prepare(ctx, rng, 't32' if thumb else 'arm', 0xE1A00000, mode=mode, itpos='out', ns=ns)
+        cpu = ctx.cpu
+        tm0 = type_map(cpu)
+        home = cpu.registers.cpsr.value
+        words = []
+        for crn in range(16):
+            for crm in range(16):
+                for opc2 in range(8):
+                    rt = rng.choice([0, 1, 2, 3, 12, 14])
+                    base = 0xEE000010 | (opc1 << 21) | (crn << 16) | (rt << 12) | (cp << 8) | (opc2 << 5) | crm
+                    words.append(base)                    # MCR
+                    words.append(base | (1 << 20))        # MRC
+        for crm in range(16):
+            for o4 in range(16):
+                base = 0xEC400000 | (rng.choice([1, 2, 3]) << 16) | (rng.choice([4, 5, 6]) << 12) | (cp << 8) | (o4 << 4) | crm
+                if o4 >> 1 == opc1:
+                    words.append(base)                    # MCRR
+                    words.append(base | (1 << 20))        # MRRC
+        for i, w in enumerate(words):
+            try:
+                cpu.registers.cpsr.value = home
+                cpu.registers.branch_to(scen.CODE)
+                M.put_code(cpu, scen.CODE, w, 't32' if thumb else 'arm')
+            except Exception as ex:
+                key = 'C18|state-corrupted|%s' % type(ex).__name__
+                if key not in mon.viol:
+                    mon.viol[key] = dict(key=key, desc='harness could not reposition the instance before word %#x of the '
+                                         'system-register sweep (%s): %r' % (w, ctxkey, ex), count=0,
+                                         replay=dict(desc, sweep=[hex(x) for x in words[max(0, i - 4):i + 1]]))
+                mon.viol[key]['count'] += 1
+                break
+            k, sig = scen.step(cpu)
+            mon.res['evaluations'] += 1
+            mon.bump('sysreg_steps')
+            if k == 'host':
+                key = 'C18|%s|%s:%s' % (sig[0], sig[1].split('/')[-1], sig[2])
+                if key not in mon.viol:
+                    mon.viol[key] = dict(key=key, desc='%s at %s:%s line %s; system-register sweep word %#x (%s) after %s on %s' % (
+                        sig[0], sig[1], sig[2], sig[3], w, 'thumb' if thumb else 'arm', hex(words[i - 1]) if i else '-', ctxkey),
+                        count=0, replay=dict(desc, sweep=[hex(x) for x in words[max(0, i - 4):i + 1]]))
+                mon.viol[key]['count'] += 1
+                mon.bump('outcome_host_error')
+            else:
+                mon.bump('sysreg_outcome_' + k)
+            if i % 64 == 63 or i == len(words) - 1:
+                tm = type_map(cpu)
+                if tm != tm0:
+                    changed = sorted(k_ for k_ in tm0 if tm.get(k_) != tm0[k_])[:4]
+                    key = 'C18|register-object-replaced|%s' % ','.join(changed)
+                    if key not in mon.viol:
+                        mon.viol[key] = dict(key=key, desc='register-file attribute(s) %s changed type (%s -> %s) during the sweep '
+                                             'before word %#x on %s' % (changed, [tm0[c] for c in changed], [tm.get(c) for c in changed],
+                                                                        w, ctxkey), count=0,
+                                             replay=dict(desc, sweep=[hex(x) for x in words[max(0, i - 64):i + 1]]))
+                    mon.viol[key]['count'] += 1
+                    tm0 = tm
+                mon.bump('type_audits')
+        mon.res['nontrivial'].add('sysregs|cp%d|opc1=%d|%s|%s' % (cp, opc1, ctxkey[0], 'thumb' if thumb else 'arm'))
+        # the instance must still reset and run ordinary code
+        try:
+            cpu.take_reset()
+            mon.bump('resets_after_sweep')
+        except NotImplementedError:
+            pass
+        except Exception as ex:
+            from vf.common import exc_signature
+            sig = exc_signature(ex)
+            key = 'C18|%s|%s:%s|take_reset-after-sweep' % (sig[0], sig[1].split('/')[-1], sig[2])
+            if key not in mon.viol:
+                mon.viol[key] = dict(key=key, desc='take_reset() after the system-register sweep on %s: %s' % (ctxkey, sig), count=0,
+                                     replay=dict(desc))
+            mon.viol[key]['count'] += 1
 
 
 def programs(mon, spec):
@@ -173,6 +319,7 @@ def programs(mon, spec):
         # exception vectors land in mapped RAM at 0 with more random code
         M.poke(cpu, 0, bytes(rng.getrandbits(8) for _ in range(0x100)))
         trace = []
+        tm0 = type_map(cpu)
         for s in range(spec['steps']):
             pc = cpu.registers.pc_store_value()
             k, sig = scen.step(cpu)
@@ -193,6 +340,15 @@ def programs(mon, spec):
                 mon.bump('program_left_valid_state_space')
                 break
         mon.res['nontrivial'].add('prog|%s|%d' % (ctxkey[0], len(set(trace))))
+        tm = type_map(cpu)
+        mon.bump('type_audits')
+        if tm != tm0:
+            changed = sorted(k_ for k_ in tm0 if tm.get(k_) != tm0[k_])[:4]
+            key = 'C18|register-object-replaced|%s' % ','.join(changed)
+            if key not in mon.viol:
+                mon.viol[key] = dict(key=key, desc='register-file attribute(s) %s changed type during a program on %s' % (changed, ctxkey),
+                                     count=0, replay=dict(desc, program=blob.hex(), vectors=True, steps=len(trace), note='program'))
+            mon.viol[key]['count'] += 1
 
 
 def replay(data):
